@@ -32,6 +32,7 @@ type loopRt struct {
 	cntInit  Val
 	cntBound ssa.Value // B itself when defined outside the loop
 	cntLenOf ssa.Value // x when B is len(x) and x is defined outside the loop
+	cntDown  bool      // `for i := v0; i >= 0; i--`
 }
 
 type Frame struct {
@@ -526,6 +527,13 @@ func (fr *Frame) evalInv(inv Clause, rt *loopRt, st *State, phis map[*ssa.Phi]Va
 		}
 		p := e.toTerm(st, pv)
 		v0 := e.toTerm(st, rt.cntInit)
+		if rt.cntDown {
+			// i <= v0 and (i >= -1 or i == v0): in the body i >= 0, so i-1 >= -1
+			if p.Sort != SInt || v0.Sort != SInt {
+				return True, nil
+			}
+			return And(Cmp("<=", p, v0), Or(Cmp("<=", IntLit(-1), p), Eq(p, v0))), nil
+		}
 		var b Term
 		if rt.cntLenOf != nil {
 			x := fr.get(st, rt.cntLenOf)
@@ -566,25 +574,48 @@ func (fr *Frame) detectCounter(rt *loopRt, st *State, phiEntry map[*ssa.Phi]Val)
 		return
 	}
 	cmp, ok := ifi.Cond.(*ssa.BinOp)
-	if !ok || cmp.Op != token.LSS {
+	if !ok {
+		return
+	}
+	down := false
+	switch cmp.Op {
+	case token.LSS:
+	case token.GEQ, token.GTR:
+		// i >= 0 or i > -1
+		c, ok := cmp.Y.(*ssa.Const)
+		if !ok || c.Value == nil || (cmp.Op == token.GEQ && c.Int64() != 0) || (cmp.Op == token.GTR && c.Int64() != -1) {
+			return
+		}
+		down = true
+	default:
 		return
 	}
 	phi, ok := cmp.X.(*ssa.Phi)
 	if !ok || phi.Block() != h || len(phi.Edges) != 2 {
 		return
 	}
-	// one edge from outside (initial value), one from inside that is phi + 1
+	// one edge from outside (initial value), one from inside that is phi + 1 (phi - 1 when counting down)
 	var init ssa.Value
 	incOK := false
 	for i, pred := range h.Preds {
 		ed := phi.Edges[i]
 		if pred == h || rt.li.Body[pred] {
-			add, ok := ed.(*ssa.BinOp)
-			if !ok || add.Op != token.ADD || add.X != ssa.Value(phi) {
+			step, ok := ed.(*ssa.BinOp)
+			if !ok || step.X != ssa.Value(phi) {
 				return
 			}
-			c, ok := add.Y.(*ssa.Const)
-			if !ok || c.Value == nil || c.Int64() != 1 {
+			c, ok := step.Y.(*ssa.Const)
+			if !ok || c.Value == nil {
+				return
+			}
+			want := int64(1)
+			if down {
+				want = -1
+			}
+			switch {
+			case step.Op == token.ADD && c.Int64() == want:
+			case step.Op == token.SUB && c.Int64() == -want:
+			default:
 				return
 			}
 			incOK = true
@@ -593,6 +624,14 @@ func (fr *Frame) detectCounter(rt *loopRt, st *State, phiEntry map[*ssa.Phi]Val)
 		}
 	}
 	if !incOK || init == nil {
+		return
+	}
+	if down {
+		iv, ok := phiEntry[phi]
+		if !ok {
+			return
+		}
+		rt.cntPhi, rt.cntInit, rt.cntDown = phi, iv, true
 		return
 	}
 	switch y := cmp.Y.(type) {
